@@ -86,6 +86,11 @@ META = {
         "locally and filled by state.nested_parse is handed on (itself or something derived from its children) by every return that "
         "follows the parse. R9 - a preset id (ids=[x]) is used only where `x not in document.ids` is known, since docutils' set_id only "
         "reports a clash of preset ids (read from the docutils source). "
+        "Round 14: R7 - when a donor of ids is replaced by a placeholder that a later pass resolves (pending_xref / pending), the ids go "
+        "to the placeholder itself (replace_self carries its basic attributes over, while the resolvers in myst_refs - found by their "
+        "`node[0].children` reads - keep only the children of the content node), and the hand-over dominates every "
+        "`donor.parent.replace(donor, placeholder)` (Element.replace copies no attributes). R1 - a transition kept in the `details` of "
+        "a docutils pending node is not an attach. "
         "R6: the first child a new section can receive, on every path, is its nodes.title (interprocedural may-append summary: "
         "direct appends, note_*_target(_, msgnode) where msgnode may be the node - also through a conditional expression or a helper that may hand its argument back -, create_warning(append_to=), becoming the current node; parameter guards of "
         "helpers evaluated against the call's literal arguments). "
@@ -911,6 +916,13 @@ class _StructTrace:
                 if fname in REGISTRY_CALLS:
                     continue
                 raise Unsupported(f"{self.what} `{name}` is passed to `{short(call, 60)}` in {fi.qualname}, whose effect is not modelled")
+            if isinstance(p, ast.Dict) and u in p.values:
+                # kept in the `details` of a docutils pending node (a note for a later transform): not an attach
+                holder = parent(p)
+                holder = parent(holder) if isinstance(holder, ast.keyword) else holder
+                if isinstance(holder, ast.Call) and _ctor_class(fi, holder) == "docutils.nodes.pending":
+                    continue
+                raise Unsupported(f"{self.what} `{name}` stored in the dict `{short(p, 50)}` in {fi.qualname}: flow not modelled")
             if isinstance(p, ast.Return) or (isinstance(p, ast.IfExp) and (p.body is u or p.orelse is u) and isinstance(parent(p), ast.Return)):
                 if via:
                     continue  # handed back to the caller: judged there (value_use)
@@ -1160,7 +1172,7 @@ def _first_child_check(corpus: Corpus, fi: FunctionInfo, var: str, ctor_stmt: as
 def _local_ctor(fi: FunctionInfo, e: ast.expr | None) -> str | None:
     """Class constructed by ``e`` (directly or through a singly assigned local)."""
     if isinstance(e, ast.Name):
-        e = _single_value(fi, e.id)
+        e = _single_value(fi, e.id, ignore_aug=True)  # `x += child` on a node does not rebind x
     return _ctor_class(fi, e)
 
 
@@ -3326,6 +3338,74 @@ def _contents_copies_lose_ids(corpus: Corpus, rep: Report) -> None:
             rep.violation("C03.R7", key, f.site(), f"{t_.name} is not among the transforms of this front end: with a `contents` directive the ids of inline heading content are duplicated in the table of contents")
 
 
+PLACEHOLDER_CLASSES = ("sphinx.addnodes.pending_xref", "docutils.nodes.pending")
+
+
+def _children_only_readers(corpus: Corpus) -> list[str]:
+    """Resolver functions that rebuild a reference from the *children* of a pending_xref's content node
+    (`x.extend(c.deepcopy() for c in node[0].children)`): the content node's own ids/names do not survive them."""
+
+    def compute():
+        out = []
+        m = corpus.mod("sphinx_ext.myst_refs")
+        for q, f in m.functions.items():
+            if f.is_lambda:
+                continue
+            for n in f.local_nodes():
+                if isinstance(n, ast.Attribute) and n.attr == "children" and isinstance(n.value, ast.Subscript) and isinstance(n.value.slice, ast.Constant) and n.value.slice.value == 0:
+                    p_ = parent(n)
+                    if isinstance(p_, ast.comprehension) or (isinstance(p_, ast.Call) and n in p_.args):
+                        out.append(f.qualname)
+                        break
+        return out
+
+    return corpus.cache("c03-children-only-readers", compute)
+
+
+def _ids_reach_the_replacement(corpus: Corpus, rep: Report, fi: FunctionInfo, cfg, donor: str, evs) -> None:
+    """When the donor is replaced by a placeholder that a later pass resolves (pending_xref / pending), its ids have to
+    be handed to the placeholder itself - `replace_self` carries the placeholder's own basic attributes over to what
+    the resolver builds, while the resolvers keep only the children of the nodes inside it - and on every path."""
+    reps = []
+    for n in fi.local_nodes():
+        if isinstance(n, ast.Call) and isinstance(n.func, ast.Attribute):
+            if n.func.attr == "replace" and len(n.args) == 2 and unparse(n.args[0]) == donor and unparse(n.func.value) == f"{donor}.parent":
+                reps.append((n, n.args[1], False))
+            elif n.func.attr == "replace_self" and unparse(n.func.value) == donor and n.args:
+                reps.append((n, n.args[0], True))
+    for call, new, carries in reps:
+        cls_ = _local_ctor(fi, new) if isinstance(new, ast.Name) else None
+        # (`addnodes` may be imported inside the function: then only the dotted tail is known)
+        if cls_ is None or not (cls_ in PLACEHOLDER_CLASSES or cls_.endswith((".pending_xref", "nodes.pending"))):
+            continue
+        readers = _children_only_readers(corpus)
+        site = fi.module.site(call)
+        key = f"{fi.fq}|ids of `{donor}` go to the placeholder that replaces it"
+        wrong = [(nd, r) for nd, r, h in evs if r != new.id]
+        if wrong and readers:
+            rep.violation("C03.R7", key, fi.module.site(wrong[0][0]), f"the ids of `{donor}` are handed to `{wrong[0][1]}`, a node inside the {(_local_ctor(fi, new) or '').rsplit('.', 1)[-1]} `{new.id}` that replaces it: the resolvers ({', '.join(readers[:3])}) rebuild the reference from the children of that content node only, so the ids are lost and links to them point at nothing, without a warning")
+        else:
+            rep.ok("C03.R7", key, site, f"handed to `{new.id}` itself" + ("" if readers else " (no resolver drops the content node)"))
+        if carries:
+            continue  # replace_self carries the basic attributes over by itself
+        key2 = f"{fi.fq}|ids of `{donor}` are handed on before every `{short(call, 40)}`"
+        st = cfg.stmt_of(call)
+        handers = set()
+        for nd, r, h in evs:
+            if r != new.id:
+                continue
+            hs = cfg.stmt_of(nd)
+            handers.add(hs)
+            for a in _ancestors(nd):
+                if isinstance(a, ast.For) and _literal_container(a.iter):
+                    handers.add(a)  # a loop over a non-empty literal executes its body
+        dom = cfg.dom().get(st, set())
+        if handers & dom:
+            rep.ok("C03.R7", key2, site, "the hand-over dominates the replacement")
+        else:
+            rep.violation("C03.R7", key2, site, f"`{short(call, 50)}` puts `{new.id}` in the place of `{donor}` (Element.replace does not copy attributes) on a path on which the ids of `{donor}` were not handed to `{new.id}`: an id given to the link ({{#id}}) disappears from the tree and links to it dangle")
+
+
 @rule("C03.R7")
 def r7_ids_moved_not_copied(corpus: Corpus, rep: Report, tier: str):
     rep.rule("C03.R7", "the ids of a node are handed to at most one other node per path, and the donor then leaves the tree (identifiers stay unique)")
@@ -3358,6 +3438,7 @@ def r7_ids_moved_not_copied(corpus: Corpus, rep: Report, tier: str):
                 rep.violation("C03.R7", key, site, f"{bad[0]} and {bad[2]} both hand the ids of `{donor}` on, to `{bad[1]}` and to `{bad[3]}`, on one path: two nodes of the tree carry the same ids")
             else:
                 rep.ok("C03.R7", key, site, f"received by `{evs[0][1]}` only")
+            _ids_reach_the_replacement(corpus, rep, fi, cfg, donor, evs)
             # the donor must not stay in the tree with the same ids
             key = f"{fi.fq}|donor `{donor}` of the ids leaves the tree"
             if donor in fi.params:
@@ -4059,7 +4140,7 @@ def mutants(corpus: Corpus):
         out.append(("c03-inline-messages-returned-in-both-lists", "MockInliner.parse no longer returns (container.children, ...)"))
     # ---- round 9: collected results dropped by an early return; scratch-document registries
     h2n = corpus.mod("mdit_to_docutils.html_to_nodes")
-    f = h2n.func("html_to_nodes")
+    f = next((x for x in h2n.functions.values() if not x.is_lambda and sum(1 for n in x.local_nodes() if isinstance(n, ast.Expr) and isinstance(n.value, ast.Call) and unparse(n.value.func) == "nodes_list.extend" and "run_directive" in unparse(n.value)) >= 2), h2n.func("html_to_nodes"))
     ext = [n for n in f.local_nodes() if isinstance(n, ast.Expr) and isinstance(n.value, ast.Call) and unparse(n.value.func) == "nodes_list.extend" and "run_directive" in unparse(n.value)]
     ext.sort(key=lambda n: n.lineno)
     if len(ext) >= 2:
@@ -4139,11 +4220,21 @@ def mutants(corpus: Corpus):
     f = tf.func("ResolveAnchorIds.apply")
     st = find_node(f, lambda n: isinstance(n, ast.Assign) and isinstance(n.targets[0], ast.Name) and n.targets[0].id == "inner_node")
     if st is not None:
-        add("c03-pending-xref-also-takes-link-ids", "C03.R7", tf, st, "pending.update_basic_atts(refnode)\n" + _indent(tf, st) + _stmt_text(tf, st), "ids of `refnode`")
+        # a second receiver next to the placeholder: the content node also takes the link's basic attributes
+        add("c03-content-node-also-takes-link-ids", "C03.R7", tf, st, _stmt_text(tf, st) + "\n" + _indent(tf, st) + "inner_node.update_basic_atts(refnode)", "ids of `refnode`")
     else:
-        out.append(("c03-pending-xref-also-takes-link-ids", "inner_node construction not found"))
-    c = find_node(f, lambda n: isinstance(n, ast.Call) and unparse(n.func) == "addnodes.pending_xref")
-    add("c03-pending-xref-built-with-link-ids", "C03.R7", tf, c.keywords[-1].value if c is not None and c.keywords else None, (unparse(c.keywords[-1].value) + ', ids=refnode["ids"]') if c is not None and c.keywords else "", "ids of `refnode`")
+        out.append(("c03-content-node-also-takes-link-ids", "inner_node construction not found"))
+    hand = find_node(f, lambda n: isinstance(n, ast.For) and _literal_container(n.iter) and "ids" in (_literal_container(n.iter) or []) and any(isinstance(x, ast.Assign) and isinstance(x.targets[0], ast.Subscript) and unparse(x.targets[0].value) == "pending" for x in n.body))
+    if hand is not None:
+        asg = hand.body[0]
+        ind = _indent(tf, hand)
+        add("c03-revert-de1ee76-link-ids-on-the-inner-content-node", "C03.R7", tf, asg.targets[0].value, "inner_node", "placeholder that replaces it")
+        add("c03-link-ids-on-content-node-names-on-placeholder", "C03.R7", tf, hand, f"inner_node['ids'] = refnode['ids']\n{ind}for attr in ('names', 'dupnames'):\n{ind}    pending[attr] = refnode[attr]", "placeholder that replaces it")
+        add("c03-link-ids-handed-on-only-for-named-links", "C03.R7", tf, hand, f"if refnode['names']:\n{ind}    " + _stmt_text(tf, hand).replace("\n", "\n    "), "handed on before every")
+    else:
+        out.append(("c03-revert-de1ee76-link-ids-on-the-inner-content-node", "ids hand-over loop to `pending` not found"))
+    c = st.value if st is not None and isinstance(st.value, ast.Call) else None
+    add("c03-content-node-built-with-link-ids", "C03.R7", tf, c.keywords[-1].value if c is not None and c.keywords else None, (unparse(c.keywords[-1].value) + ', ids=refnode["ids"]') if c is not None and c.keywords else "", "ids of `refnode`")
     c = find_node(f, lambda n: isinstance(n, ast.Call) and unparse(n) == "refnode.parent.replace(refnode, pending)")
     add("c03-ids-donor-kept-in-tree", "C03.R7", tf, c, "refnode.parent.insert(refnode.parent.index(refnode), pending)", "donor `refnode`")
     # ---- R3: document.nameids values may be None
